@@ -173,7 +173,7 @@ type ReplySpec struct {
 	Status     int    `json:"status"`
 	Reason     string `json:"reason"`
 	Hdr        []KV   `json:"hdr"`         // names as sent
-	AcceptMode int    `json:"accept_mode"` // 0 correct 1 random 2 other key 3 absent 4 wrong first then correct 5 correct with trailing space
+	AcceptMode int    `json:"accept_mode"` // 0 correct 1 random 2 other key 3 absent 4 wrong first then correct 5 correct with junk appended 6 one letter in the other case 7 upper-cased 8 one character replaced
 	BodyLen    int    `json:"body_len,omitempty"`
 }
 
@@ -213,6 +213,31 @@ func buildReply(rs *ReplySpec, key string) ([]byte, http.Header) {
 		add("sec-websocket-accept", acceptFor(key))
 	case 5:
 		add("Sec-WebSocket-Accept", acceptFor(key)+"x")
+	case 6, 7, 8:
+		// near misses of the right digest: one letter in the other case, all upper case, one
+		// character replaced (base64 is case sensitive: each is the digest of something else)
+		a := []byte(acceptFor(key))
+		switch rs.AcceptMode {
+		case 6:
+			for i, ch := range a {
+				if ch >= 'a' && ch <= 'z' {
+					a[i] = ch - 32
+					break
+				} else if ch >= 'A' && ch <= 'Z' {
+					a[i] = ch + 32
+					break
+				}
+			}
+		case 7:
+			a = []byte(strings.ToUpper(string(a)))
+		default:
+			if a[5] == 'A' {
+				a[5] = 'B'
+			} else {
+				a[5] = 'A'
+			}
+		}
+		add("Sec-WebSocket-Accept", string(a))
 	}
 	if rs.BodyLen > 0 || rs.Status != 101 {
 		fmt.Fprintf(&b, "Content-Length: %d\r\n", rs.BodyLen)
@@ -391,7 +416,7 @@ func genReply(rng *rand.Rand) ReplySpec {
 	case 2:
 		rs.Hdr = rs.Hdr[1:]
 	}
-	rs.AcceptMode = core.Pick(rng, []int{0, 0, 0, 0, 0, 1, 2, 3, 4, 5})
+	rs.AcceptMode = core.Pick(rng, []int{0, 0, 0, 0, 0, 0, 1, 2, 3, 4, 5, 6, 7, 8})
 	if rng.Intn(3) == 0 {
 		exts := []string{"permessage-deflate; server_no_context_takeover; client_no_context_takeover", "permessage-deflate", "permessage-deflate; server_no_context_takeover",
 			"permessage-deflate; client_no_context_takeover", "foo, permessage-deflate; client_no_context_takeover; server_no_context_takeover", "bar; x=1",
